@@ -148,6 +148,45 @@ inline const uint32_t* rng_seeds()
     return seeds;
 }
 
+// Cross-instance warm-up: before anything is explored, another instance of the same container type
+// with a different capacity is created, driven through an eviction and destroyed.  Any function-local
+// static or other lazily built process-wide state that (wrongly) remembers the first instance's
+// parameters is thereby primed with values that do not fit the explored instance.
+template<class AD>
+inline void warm_up_other_instance()
+{
+    Config g;
+    g.cap     = 1;
+    g.nkeys   = 2;
+    g.ttl_ms  = 5;
+    g.tick_ms = 5;
+    auto saved = g_vs;
+    {
+        AD ad(g);
+        for (int k = 1; k <= 2; k++)
+        {
+            Op o;
+            o.k      = OpK::Insert;
+            o.n      = 1;
+            o.key[0] = k;
+            o.wid[0] = 5000 + k;
+            o.ttl[0] = 5;
+            ad.apply(o);
+        }
+        Op f;
+        f.k      = OpK::Find;
+        f.n      = 1;
+        f.key[0] = 2;
+        ad.apply(f);
+        Op e;
+        e.k      = OpK::Erase;
+        e.n      = 1;
+        e.key[0] = 2;
+        ad.apply(e);
+    }
+    g_vs = saved;
+}
+
 inline cap::allow to_allow(int a)
 {
     return a == 1 ? cap::allow::insert : a == 2 ? cap::allow::update : cap::allow::insert_or_update;
@@ -219,7 +258,7 @@ struct Ad
                 if (r)
                 {
                     s.e[k].present = true;
-                    s.e[k].wid     = r->first.wid();
+                    s.e[k].wid     = r->first.id();
                     s.e[k].uc      = (int)r->second;
                 }
             }
@@ -229,7 +268,7 @@ struct Ad
                 if (r)
                 {
                     s.e[k].present = true;
-                    s.e[k].wid     = r->wid();
+                    s.e[k].wid     = r->id();
                 }
             }
             else
@@ -238,7 +277,7 @@ struct Ad
                 if (r)
                 {
                     s.e[k].present = true;
-                    s.e[k].wid     = r->wid();
+                    s.e[k].wid     = r->id();
                 }
             }
         }
@@ -268,9 +307,9 @@ struct Ad
                 if constexpr (T.is_set)
                     ok = c.insert(Key{o.key[0]}, to_allow(o.allow));
                 else if constexpr (T.ttl_per_entry)
-                    ok = c.insert(ms(o.ttl[0]), Key{o.key[0]}, Val(o.wid[0]), to_allow(o.allow));
+                    ok = c.insert(ms(o.ttl[0]), Key{o.key[0]}, Val(o.wid[0], o.key[0]), to_allow(o.allow));
                 else
-                    ok = c.insert(Key{o.key[0]}, Val(o.wid[0]), to_allow(o.allow));
+                    ok = c.insert(Key{o.key[0]}, Val(o.wid[0], o.key[0]), to_allow(o.allow));
                 r.push(ok);
                 break;
             }
@@ -289,14 +328,14 @@ struct Ad
                 {
                     std::vector<Tlru3> v;
                     for (int i = 0; i < o.n; i++)
-                        v.push_back(Tlru3{ms(o.ttl[i]), Key{o.key[i]}, Val(o.wid[i])});
+                        v.push_back(Tlru3{ms(o.ttl[i]), Key{o.key[i]}, Val(o.wid[i], o.key[i])});
                     cnt = c.insert_range(v, to_allow(o.allow));
                 }
                 else
                 {
                     std::vector<std::pair<Key, Val>> v;
                     for (int i = 0; i < o.n; i++)
-                        v.emplace_back(Key{o.key[i]}, Val(o.wid[i]));
+                        v.emplace_back(Key{o.key[i]}, Val(o.wid[i], o.key[i]));
                     if constexpr (T.has_iter_forms)
                     {
                         if (o.k == OpK::InsertIt)
@@ -347,7 +386,7 @@ struct Ad
                     else
                         f = c.find(key);
                     r.push(f.has_value());
-                    r.push(f ? f->wid() : -1);
+                    r.push(f ? f->id() : -1);
                 }
                 break;
             }
@@ -356,7 +395,7 @@ struct Ad
                 {
                     auto f = c.find_with_use_count(Key{o.key[0]}, (bool)o.peek);
                     r.push(f.has_value());
-                    r.push(f ? f->first.wid() : -1);
+                    r.push(f ? f->first.id() : -1);
                     r.push(f ? (int)f->second : -1);
                 }
                 break;
@@ -396,7 +435,7 @@ struct Ad
                     {
                         r.push(k.v);
                         r.push(ov.has_value());
-                        r.push(ov ? ov->wid() : -1);
+                        r.push(ov ? ov->id() : -1);
                     }
                 }
                 break;
@@ -428,7 +467,7 @@ struct Ad
                         if (i % 2 == 0)
                             v.emplace_back(Key{o.key[i]}, std::nullopt);
                         else
-                            v.emplace_back(Key{o.key[i]}, Val(-77));
+                            v.emplace_back(Key{o.key[i]}, Val(-77, -77));
                     }
                     if constexpr (T.has_peek)
                         c.find_range_fill(v, pk(o.peek));
@@ -446,7 +485,7 @@ struct Ad
                     {
                         r.push(k.v);
                         r.push(ov.has_value());
-                        r.push(ov ? ov->wid() : -1);
+                        r.push(ov ? ov->id() : -1);
                     }
                 }
                 break;
